@@ -59,7 +59,7 @@ theorem EdgeInv.tr {b b' : Book} (h : EdgeInv b) (t : Tr b b') : EdgeInv b' := b
       congr 1
     · simp only [indexRemove_edges, deleteVertex_edges]
       congr 1
-  | insert v es ok hes hcomp =>
+  | insert v es ok hes hcomp hzero =>
     have fresh : ∀ e ∈ b.edges, e.1 ≠ v.hash ∧ e.2 ≠ v.hash := by
       intro e hm
       obtain ⟨l1, l2, _⟩ := h.live e hm
